@@ -1061,7 +1061,16 @@ impl C03 {
 							continue;
 						}
 						// relayed if a failure for the same payment already came back to `from` from downstream
-						let down = self.htlcs.iter_mut().find(|(k, d)| k.1 == from && d.hash == h.hash && d.fail_delivered && !d.fail_consumed);
+						// (parts of one payment share the hash: the downstream HTLC belonging to this upstream HTLC is the
+						// one whose amount is the upstream amount less exactly the forwarder's advertised fee; without
+						// such a candidate a single unconsumed downstream failure of the payment is taken)
+						let cfg = &sim.w.configs[from].channel_config;
+						let (fb, fp) = (cfg.forwarding_fee_base_msat as u64, cfg.forwarding_fee_proportional_millionths as u64);
+						let exact_key = self.htlcs.iter().find(|(k, d)| k.1 == from && d.hash == h.hash && d.fail_delivered && !d.fail_consumed && d.amt + fb + d.amt * fp / 1_000_000 == h.amt).map(|(k, _)| *k);
+						let siblings = self.htlcs.iter().filter(|(k, u)| k.0 == chan && k.1 == to && u.hash == h.hash).count();
+						let cands: Vec<_> = self.htlcs.iter().filter(|(k, d)| k.1 == from && d.hash == h.hash && d.fail_delivered && !d.fail_consumed).map(|(k, _)| *k).collect();
+						let pick_key = exact_key.or(if siblings == 1 && cands.len() == 1 { Some(cands[0]) } else { None });
+						let down = pick_key.and_then(|k| self.htlcs.get_mut(&k).map(|d| (k, d)));
 						let (origin, mal) = match down {
 							Some((_, d)) => {
 								d.fail_consumed = true;
